@@ -518,6 +518,9 @@ func (c *Conn) endWrite() {
 	if ws.writing {
 		c.shmUnlock(WALWriteLock, 1) // this is where LiteFS captures the transaction
 		ws.writing = false
+		if c.ackOnEndWrite {
+			c.Acked, c.ackOnEndWrite = true, false
+		}
 	}
 }
 
@@ -714,6 +717,8 @@ func (c *Conn) RunWTx(tx WTx, cur *oracle.Image) (res WTxResult) {
 	ws.idx = w
 	res.Committed = true
 	res.Intended = next
+	// The deferred endWrite() releases WRITE; SQLite's COMMIT returns after that.
+	c.ackOnEndWrite = true
 	return
 }
 
